@@ -31,7 +31,7 @@ pub(crate) mod verif_kani {
         assert!(t.to_u16() == v.wrapping_add(1));
         assert!(t.to_u16() != v);
     }
-    fn any_level() -> crate::decode::DecodeLevel {
+    pub(crate) fn any_level() -> crate::decode::DecodeLevel {
         use crate::decode::*;
         let app = match kani::any::<u8>() % 4 { 0 => AppDecodeLevel::Nothing, 1 => AppDecodeLevel::FunctionCode, 2 => AppDecodeLevel::DataHeaders, _ => AppDecodeLevel::DataValues };
         let frame = match kani::any::<u8>() % 3 { 0 => FrameDecodeLevel::Nothing, 1 => FrameDecodeLevel::Header, _ => FrameDecodeLevel::Payload };
@@ -61,4 +61,36 @@ pub(crate) mod verif_kani {
         assert!(bytes[8] == (start >> 8) as u8 && bytes[9] == start as u8);
         assert!(bytes[10] == (count >> 8) as u8 && bytes[11] == count as u8);
     }
+    /// complete (loop-free, all 8 function codes x all 256 exception bytes x any transaction / unit id x every decode level):
+    /// an exception reply over TCP is exactly tx-id, protocol 0, length 3, unit id, function code | 0x80, the exception code
+    #[kani::proof]
+    #[kani::unwind(8)]
+    pub(crate) fn k_format_exception_tcp() {
+        let fc = match kani::any::<u8>() % 8 {
+            0 => FunctionCode::ReadCoils, 1 => FunctionCode::ReadDiscreteInputs, 2 => FunctionCode::ReadHoldingRegisters,
+            3 => FunctionCode::ReadInputRegisters, 4 => FunctionCode::WriteSingleCoil, 5 => FunctionCode::WriteSingleRegister,
+            6 => FunctionCode::WriteMultipleCoils, _ => FunctionCode::WriteMultipleRegisters,
+        };
+        let raw: u8 = kani::any();
+        let ex = crate::exception::ExceptionCode::from(raw);
+        let tx: u16 = kani::any();
+        let unit: u8 = kani::any();
+        let header = FrameHeader::new_tcp_header(crate::types::UnitId::new(unit), TxId::new(tx));
+        let mut writer = FrameWriter::tcp();
+        let level = any_level();
+        let bytes = writer.format_ex(header, FunctionField::Exception(fc), ex, level).unwrap();
+        assert!(bytes.len() == 9);
+        assert!(bytes[0] == (tx >> 8) as u8 && bytes[1] == tx as u8);
+        assert!(bytes[2] == 0 && bytes[3] == 0 && bytes[4] == 0 && bytes[5] == 3);
+        assert!(bytes[6] == unit && bytes[7] == (fc.get_value() | 0x80));
+        assert!(bytes[8] == u8::from(ex));
+        // the standard codes are the protocol's numbers; every other byte survives the round trip
+        if raw >= 1 && raw <= 6 || raw == 8 || raw == 10 || raw == 11 { assert!(bytes[8] == raw); }
+        // function code numbers of the protocol
+        assert!(FunctionCode::ReadCoils.get_value() == 1 && FunctionCode::ReadDiscreteInputs.get_value() == 2
+            && FunctionCode::ReadHoldingRegisters.get_value() == 3 && FunctionCode::ReadInputRegisters.get_value() == 4
+            && FunctionCode::WriteSingleCoil.get_value() == 5 && FunctionCode::WriteSingleRegister.get_value() == 6
+            && FunctionCode::WriteMultipleCoils.get_value() == 15 && FunctionCode::WriteMultipleRegisters.get_value() == 16);
+    }
+
 }
